@@ -1747,11 +1747,16 @@ pub fn c17std_main(report: &str) -> i32 {
                             break 'seq;
                         }
                     }
-                    // the next call on the same thread, on a healthy descriptor
-                    if let Err(detail) = c17std_one(&fds, handle, fg, bg, b"kept") {
-                        violation = json!({"handle": handle, "fg": fg, "bg": bg, "data_index": 0, "data_hex": crate::trace::hex(b"kept"),
-                            "detail": format!("after a coloured write that failed with ENOSPC: {detail}")});
-                        break 'seq;
+                    // the next calls on the same thread, on healthy descriptors: an uncoloured write
+                    // (which must emit no code at all) on the stdout handle and on this one, then
+                    // the same colours again
+                    for (h2, f2, b2, text) in [(handle - 1, 0, 0, &b"plain too"[..]), (handle, 0, 0, &b"plain"[..]), (handle, fg, bg, &b"kept"[..])] {
+                        evals += 1;
+                        if let Err(detail) = c17std_one(&fds, h2, f2, b2, text) {
+                            violation = json!({"handle": h2, "fg": f2, "bg": b2, "data_index": 0, "data_hex": crate::trace::hex(text),
+                                "detail": format!("after a coloured write that failed with ENOSPC: {detail}")});
+                            break 'seq;
+                        }
                     }
                 }
             }
